@@ -126,7 +126,14 @@ func BFS[O any](spec Spec[O]) Stats[O] {
 				if tainted {
 					continue
 				}
-				if seen.add(sys.Key()) {
+				key := ""
+				if pk, ok := any(sys).(interface{ PreSweepKey() string }); ok {
+					key = pk.PreSweepKey() // the state as a replay of the history rebuilds it (see regSys.PreSweepKey)
+				}
+				if key == "" {
+					key = sys.Key()
+				}
+				if seen.add(key) {
 					nh := make([]O, len(h)+1)
 					copy(nh, h)
 					nh[len(h)] = op
